@@ -839,7 +839,24 @@ func (h *Hist) Block() bool {
 	if len(er.ValidatorUpdates) > 0 {
 		h.TmPend[height+2] = append(h.TmPend[height+2], er.ValidatorUpdates...)
 	}
+	ordersBefore := 0
+	for k := range h.View {
+		if strings.HasPrefix(k, "o ") {
+			ordersBefore++
+		}
+	}
 	h.sendLive("S end")
+	ordersAfter := 0
+	for k := range h.View {
+		if strings.HasPrefix(k, "o ") {
+			ordersAfter++
+		}
+	}
+	if ordersAfter < ordersBefore {
+		// EndBlock removes orders only by expiry (height % 12 == 6, orders older than the expire period)
+		h.Stats["end.orders-expired"] += ordersBefore - ordersAfter
+		h.Stats["end.expiry-blocks"]++
+	}
 	if h.futureSetEmpty() {
 		// Tendermint refuses an update that empties the validator set: the chain cannot continue
 		h.S.Op(fmt.Sprintf("H h=%d empty-validator-set", height))
